@@ -250,6 +250,9 @@ def run_step(cls: str, o: Opts, ops: list[tuple], integration: str = "generic", 
             if kind == "enroll":
                 stream.enroll()
                 out.append("-")
+            elif kind == "opts":
+                stream.stream_options()
+                out.append("-")
             elif kind == "flush":
                 out.append(_fr(stream.flow.to_stream_frame()))
             elif kind == "t":
@@ -285,7 +288,7 @@ def step_op_token(op: tuple) -> str:
     from common import stmt_text, stmts_text, term_text
 
     kind = op[0]
-    if kind in ("enroll", "flush"):
+    if kind in ("enroll", "flush", "opts"):
         return kind
     if kind in ("t", "q"):
         return f"{kind}:{stmt_text(op[1])}"
